@@ -509,6 +509,15 @@ func hostile(c *hx.Ctx) []byte {
 
 // ---------- observations ----------
 
+// emitMode: whether an evaluation is also sent to Coq, and in which notation.
+type emitMode int
+
+const (
+	none    emitMode = iota // oracle only
+	plain                   // literal terms (CEnc, CDec, CCall, CNotify, CNotifyOut)
+	compact                 // run-length descriptions expanded by Corr/C25.v (CEncX, CDecX, CCallX, CNotifyX)
+)
+
 type decIn struct {
 	Kind string `json:"kind"` // dec call notify notifyout enc
 	Hex  string `json:"hex,omitempty"`
@@ -527,7 +536,7 @@ func errObs(err error) (string, bool) {
 }
 
 // checkDecoded applies the oracle clauses to one decode result; returns the Coq observation.
-func checkDecoded(c *hx.Ctx, in decIn, what string, val interface{}, err error, consumed []byte, pos uint64, emit bool) (string, bool) {
+func checkDecoded(c *hx.Ctx, in decIn, what string, val interface{}, err error, consumed []byte, pos uint64, emit emitMode) (string, bool) {
 	if err != nil {
 		o, ok := errObs(err)
 		if !ok || val != nil {
@@ -535,6 +544,9 @@ func checkDecoded(c *hx.Ctx, in decIn, what string, val interface{}, err error, 
 			return "", false
 		}
 		c.Count(what + ":" + o)
+		if emit == compact {
+			o = "X" + o[1:]
+		}
 		return o, true
 	}
 	n, ok := fromGo(val)
@@ -549,13 +561,16 @@ func checkDecoded(c *hx.Ctx, in decIn, what string, val interface{}, err error, 
 			map[string]interface{}{"value": n.String(), "reencoded": hx.Hex(re), "consumed": hx.Hex(consumed), "err": fmt.Sprint(eerr)}, "EncodeValue(decoded) == consumed bytes")
 	}
 	c.Count(what + ":ok")
-	if !emit {
+	switch emit {
+	case none:
 		return "", true // the Coq term is only built for cases sent to Coq (it is quadratic in the nesting depth)
+	case compact:
+		return fmt.Sprintf("XOk (%s) %d", n.embed().coqX(), pos), true
 	}
 	return fmt.Sprintf("OOk (%s) %d", n.coq(), pos), true
 }
 
-func doDec(c *hx.Ctx, buf []byte, skip uint64, kind string, emit bool) {
+func doDec(c *hx.Ctx, buf []byte, skip uint64, kind string, emit emitMode) {
 	c.Eval()
 	in := decIn{Kind: "dec", Hex: hx.Hex(buf), Skip: skip}
 	var val interface{}
@@ -585,9 +600,12 @@ func doDec(c *hx.Ctx, buf []byte, skip uint64, kind string, emit bool) {
 	if len(buf) > 1 {
 		c.Nontrivial("d" + in.Hex + fmt.Sprint(skip))
 	}
-	if emit {
+	switch emit {
+	case plain:
 		c.Sample(map[string]interface{}{"kind": "dec:" + kind, "hex": in.Hex, "skip": skip, "obs": obs})
 		c.Case(fmt.Sprintf("CDec %s %d (%s)", hx.CoqBytes(buf), skip, obs), in)
+	case compact:
+		c.Case(fmt.Sprintf("CDecX (%s) %d %s (%s)", bytesX(buf), skip, lenFp(buf), obs), in)
 	}
 }
 
@@ -600,7 +618,7 @@ func bucket(n int) int {
 	return 1 << 20
 }
 
-func doCall(c *hx.Ctx, buf []byte, emit bool) {
+func doCall(c *hx.Ctx, buf []byte, emit emitMode) {
 	c.Eval()
 	in := decIn{Kind: "call", Hex: hx.Hex(buf)}
 	var val interface{}
@@ -633,14 +651,17 @@ func doCall(c *hx.Ctx, buf []byte, emit bool) {
 	if len(buf) > 1 {
 		c.Nontrivial("c" + in.Hex)
 	}
-	if emit {
+	switch emit {
+	case plain:
 		c.Case(fmt.Sprintf("CCall %s (%s)", hx.CoqBytes(buf), obs), in)
+	case compact:
+		c.Case(fmt.Sprintf("CCallX (%s) %s (%s)", bytesX(buf), lenFp(buf), obs), in)
 	}
 }
 
 var evt = []byte("evt\x00")
 
-func doNotify(c *hx.Ctx, buf []byte, emit bool) {
+func doNotify(c *hx.Ctx, buf []byte, emit emitMode) {
 	c.Eval()
 	in := decIn{Kind: "notify", Hex: hx.Hex(buf)}
 	var val, out interface{}
@@ -687,13 +708,16 @@ func doNotify(c *hx.Ctx, buf []byte, emit bool) {
 	if len(buf) > 4 {
 		c.Nontrivial("n" + in.Hex)
 	}
-	if emit {
+	switch emit {
+	case plain:
 		c.Case(fmt.Sprintf("CNotify %s (%s)", hx.CoqBytes(buf), obs), in)
 		c.Case(fmt.Sprintf("CNotifyOut %s %s", hx.CoqBytes(buf), hx.CoqBool(isRaw)), decIn{Kind: "notifyout", Hex: in.Hex})
+	case compact:
+		c.Case(fmt.Sprintf("CNotifyX (%s) %s (%s)", bytesX(buf), lenFp(buf), obs), in)
 	}
 }
 
-func doEnc(c *hx.Ctx, g gv, emit bool) {
+func doEnc(c *hx.Ctx, g gv, emit emitMode) {
 	c.Eval()
 	in := decIn{Kind: "enc", Val: &g}
 	dom := g.inDomain(true)
@@ -707,6 +731,10 @@ func doEnc(c *hx.Ctx, g gv, emit bool) {
 	enc = append([]byte{}, enc...)
 	var res string
 	switch {
+	case err == nil && emit == compact:
+		res = "EOk " + lenFp(enc)
+	case err == nil && emit == none:
+		res = "EOk"
 	case err == nil:
 		res = "EOk " + hx.CoqBytes(enc)
 	case strings.Contains(err.Error(), "out of i128 range"):
@@ -719,9 +747,12 @@ func doEnc(c *hx.Ctx, g gv, emit bool) {
 	}
 	c.Count("enc:" + strings.Fields(res)[0] + fmt.Sprintf(":indomain=%v", dom))
 	c.Count("enc-top:" + g.T)
-	if emit {
+	switch emit {
+	case plain:
 		c.Sample(map[string]interface{}{"kind": "enc", "value": g.coq(), "result": res})
 		c.Case(fmt.Sprintf("CEnc (%s) %s (%s)", g.coq(), hx.CoqBool(dom), res), in)
+	case compact:
+		c.Case(fmt.Sprintf("CEncX (%s) %s (EX%s)", g.coqX(), hx.CoqBool(dom), res[1:]), in)
 	}
 	if dom {
 		want := g.norm()
@@ -881,10 +912,12 @@ func Run(c *hx.Ctx) {
 	// fixed probes: every prefix of the two wrappers' prefixes, and the shortest inputs
 	for _, b := range [][]byte{{}, {0}, {1}, {0, cc.BooleanType, 1}, {1, cc.BooleanType, 1}, []byte("e"), []byte("ev"), []byte("evt"), evt,
 		[]byte("evt\x01\x03\x01"), []byte("evt\x00\x03\x01"), []byte("evt\x00\x03\x02")} {
-		doCall(c, b, true)
-		doNotify(c, b, true)
-		doDec(c, b, 0, "probe", true)
+		doCall(c, b, plain)
+		doNotify(c, b, plain)
+		doDec(c, b, 0, "probe", plain)
 	}
+	// boundary family around every size constant of the codec (long lists, long payloads)
+	boundary(c)
 	// deep nesting, in process: 64 KiB (the notify limit), 256 KiB, and in the thorough tier 1 MiB
 	// (the NeoVM byte-array limit; the first such decode costs ~5 s of goroutine stack growth)
 	sizes := []int{64 * 1024, 256 * 1024}
@@ -894,24 +927,24 @@ func Run(c *hx.Ctx) {
 	for _, size := range sizes {
 		d := size / 5
 		b := bytes.Repeat(append([]byte{cc.ListType}, le32(1)...), d)
-		doDec(c, b, 0, "deep", false)
-		doDec(c, append(b, cc.BooleanType, 0), 0, "deep", false)
-		doNotify(c, append(append([]byte{}, evt...), b...), false)
+		doDec(c, b, 0, "deep", none)
+		doDec(c, append(b, cc.BooleanType, 0), 0, "deep", none)
+		doNotify(c, append(append([]byte{}, evt...), b...), none)
 	}
-	n := c.N(1040, 12000)
+	n := c.N(910, 12000)
 	for i := 0; i < n; i++ {
 		switch i % 13 {
 		case 0, 1, 2:
-			doEnc(c, genValue(c, 3, true, false), true)
+			doEnc(c, genValue(c, 3, true, false), plain)
 		case 3:
-			doEnc(c, genValue(c, 3, true, true), true)
+			doEnc(c, genValue(c, 3, true, true), plain)
 		case 4, 5, 6, 7, 8, 9:
 			b, sk, kind := decInput(c)
-			doDec(c, b, sk, kind, true)
+			doDec(c, b, sk, kind, plain)
 		case 10:
-			doCall(c, wrapInput(c, []byte{cc.VERSION}), true)
+			doCall(c, wrapInput(c, []byte{cc.VERSION}), plain)
 		default:
-			doNotify(c, wrapInput(c, evt), true)
+			doNotify(c, wrapInput(c, evt), plain)
 		}
 	}
 	// oracle only (not re-evaluated in Coq): more volume on the implementation
@@ -919,14 +952,14 @@ func Run(c *hx.Ctx) {
 	for i := 0; i < m; i++ {
 		switch i % 6 {
 		case 0:
-			doEnc(c, genValue(c, 4, true, i%12 == 0), false)
+			doEnc(c, genValue(c, 4, true, i%12 == 0), none)
 		case 1:
-			doCall(c, wrapInput(c, []byte{cc.VERSION}), false)
+			doCall(c, wrapInput(c, []byte{cc.VERSION}), none)
 		case 2:
-			doNotify(c, wrapInput(c, evt), false)
+			doNotify(c, wrapInput(c, evt), none)
 		default:
 			b, sk, kind := decInput(c)
-			doDec(c, b, sk, kind, false)
+			doDec(c, b, sk, kind, none)
 		}
 	}
 }
@@ -934,14 +967,14 @@ func Run(c *hx.Ctx) {
 func replay(c *hx.Ctx, r decIn) {
 	switch r.Kind {
 	case "dec":
-		doDec(c, hx.UnHex(r.Hex), r.Skip, "replay", true)
+		doDec(c, hx.UnHex(r.Hex), r.Skip, "replay", plain)
 	case "call":
-		doCall(c, hx.UnHex(r.Hex), true)
+		doCall(c, hx.UnHex(r.Hex), plain)
 	case "notify", "notifyout":
-		doNotify(c, hx.UnHex(r.Hex), true)
+		doNotify(c, hx.UnHex(r.Hex), plain)
 	case "enc":
 		if r.Val != nil {
-			doEnc(c, *r.Val, true)
+			doEnc(c, *r.Val, plain)
 		}
 	}
 }
